@@ -76,7 +76,9 @@ QuickChunks == {
 MoreChunks == {
   <<"C">>, <<"W","!">>, <<"r","o","r">>, <<"0">>, <<"p">>, <<"s">>, <<"h">>, <<"f">>, <<"X">>, <<"_">>,
   <<"\t">>, <<"\r">>, <<"&">>, <<"^">>, <<">">>, <<"~">>, <<"%">>, <<"+">>, <<",">>, <<"(">>, <<")">>,
-  <<"[">>, <<"]">>, <<"XFF">>, <<"@">>, <<"i","f">> }
+  <<"[">>, <<"]">>, <<"XFF">>, <<"@">>, <<"i","f">>,
+  \* the remaining RTIME units, the capital spellings of the hex prefix and of the exponent markers
+  <<"m">>, <<"d">>, <<"y">>, <<"0","X">>, <<"E">>, <<"P">>, <<"W">> }
 AllChunks == QuickChunks \cup MoreChunks
 \* a small alphabet for long inputs: line structure, strings, long strings, comments left open and closed across
 \* several lines, a wide rune - the state the lexer carries from token to token (line / column bookkeeping, the
